@@ -878,7 +878,29 @@ impl Frame {
             header.channel_assignment().channels() == subframes.len(),
             "must match to the channel specification in the header"
         )?;
-        Ok(Self::from_parts(header, subframes))
+        let ret = Self::from_parts(header, subframes);
+        ret.verify_subframe_shapes()?;
+        Ok(ret)
+    }
+
+    /// Checks that every subframe has the block size and the sample size of the header.
+    pub(crate) fn verify_subframe_shapes(&self) -> Result<(), VerifyError> {
+        let assignment = self.header.channel_assignment();
+        for (ch, sf) in self.subframes.iter().enumerate() {
+            verify_true!(
+                "subframe[{ch}]",
+                sf.block_size() == self.header.block_size(),
+                "must have the block size specified in the header"
+            )?;
+            if let Some(bits) = self.header.bits_per_sample() {
+                verify_true!(
+                    "subframe[{ch}]",
+                    sf.bits_per_sample() == bits + assignment.bits_per_sample_offset(ch),
+                    "must have the sample size specified in the header"
+                )?;
+            }
+        }
+        Ok(())
     }
 
     /// Constructs Frame from [`FrameHeader`] and [`SubFrame`]s.
@@ -1620,7 +1642,11 @@ impl FrameHeader {
         sample_rate: usize,
         offset: FrameOffset,
     ) -> Result<Self, VerifyError> {
+        verify_range!("block_size", block_size, 1..)?;
         verify_block_size!("block_size", block_size)?;
+        if let FrameOffset::StartSample(n) = offset {
+            verify_range!("offset", n, ..(1u64 << 36))?;
+        }
         let block_size_spec = BlockSizeSpec::from_size(block_size as u16);
         let sample_size_spec =
             SampleSizeSpec::from_bits(bits_per_sample as u8).ok_or_else(|| {
@@ -1803,6 +1829,28 @@ pub enum SubFrame {
     FixedLpc(FixedLpc),
     /// This variant contains [`Lpc`] sub-frame.
     Lpc(Lpc),
+}
+
+impl SubFrame {
+    /// Returns the number of samples represented by this subframe.
+    pub(crate) fn block_size(&self) -> usize {
+        match self {
+            Self::Constant(c) => c.block_size(),
+            Self::Verbatim(c) => c.samples().len(),
+            Self::FixedLpc(c) => c.residual().block_size(),
+            Self::Lpc(c) => c.residual().block_size(),
+        }
+    }
+
+    /// Returns the number of bits used for each sample of this subframe.
+    pub(crate) fn bits_per_sample(&self) -> usize {
+        match self {
+            Self::Constant(c) => c.bits_per_sample(),
+            Self::Verbatim(c) => c.bits_per_sample(),
+            Self::FixedLpc(c) => c.bits_per_sample(),
+            Self::Lpc(c) => c.bits_per_sample(),
+        }
+    }
 }
 
 impl From<Constant> for SubFrame {
